@@ -233,7 +233,7 @@ func buildOf(fn *ssa.Function, v ssa.Value) *sliceBuild {
 func runParallel(c *Ctx, pkgs []string) {
 	n := 0
 	for _, rel := range pkgs {
-		for _, tf := range c.pkgFuncs(rel) {
+		for _, tf := range c.srcFuncs(rel) {
 			withAnon(tf, func(g *ssa.Function) {
 				allInstrs(g, func(ins ssa.Instruction) {
 					ia, ok := ins.(*ssa.IndexAddr)
